@@ -292,7 +292,14 @@ def hier_program(ids: Ids, rng, shape: List[List[int]], kind: str, is_async: boo
         for c in classes:
             for m in c["members"]:
                 if m.get("decos") and rng.random() < 0.6:
-                    m["decos"].append(["foreign", "F" + m["name"] + c["name"]])
+                    tag = "F" + m["name"] + c["name"] + ("~" if rng.random() < 0.4 else "")
+                    # above all the contracts, or in between them (never below a snapshot whose postcondition is further down:
+                    # the position among pre- and postconditions does not matter, they all join the one checker)
+                    contract_kinds = [d[0] for d in m["decos"]]
+                    if len(contract_kinds) >= 2 and "snap" not in contract_kinds and rng.random() < 0.5:
+                        m["decos"].insert(rng.randint(1, len(m["decos"]) - 1), ["foreign", tag])
+                    else:
+                        m["decos"].append(["foreign", tag])
     return {"funcs": [], "classes": classes, "member": base, "kind": kind, "key": key if mkind not in ("pget", "pset", "pdel")
             else "{}.{}".format(base, mkind)}
 
